@@ -533,9 +533,16 @@ func (o *Oracle) checkRec(idx int, i *oiface, what, tok string, r *orec, key str
 		o.add(idx, "C02:malformed-output:"+what, tok)
 		return
 	}
-	if i.judgeable && staleSig(i, key) != "" && (m[4] != b01(r.secret) || m[5] != b01(r.crown) || (m[2] != r.expires && !(r.rel > 0 && m[2] == fmt.Sprintf("@+%d", r.rel)))) {
-		o.add(idx, staleSig(i, key), fmt.Sprintf("key %s: metadata %s differs from the most recently stored", key, meta))
-		return
+	if i.judgeable && staleSig(i, key) != "" {
+		wantD := "0"
+		if r.rel > 0 {
+			wantD = fmt.Sprintf("-%d", r.rel)
+		}
+		if m[4] != b01(r.secret) || m[5] != b01(r.crown) || m[3] != wantD || (r.created != "" && m[0] != r.created) ||
+			(m[2] != r.expires && !(r.rel > 0 && m[2] == fmt.Sprintf("@+%d", r.rel))) {
+			o.add(idx, staleSig(i, key), fmt.Sprintf("key %s: metadata %s differs from the most recently stored", key, meta))
+			return
+		}
 	}
 	if i.judgeable {
 		wantS, wantJ := b01(r.secret), b01(r.crown)
@@ -706,7 +713,7 @@ func (o *Oracle) Step(idx int, line, out string) {
 		}
 		delete(i.staleKeys, key)
 		o.noteWriter(f[1], key)
-	case "del", "setabs", "setrel", "mksecret", "mkcrown", "insert":
+	case "del", "setabs", "setrel", "mksecret", "mkcrown", "insert", "reput":
 		key := f[2]
 		r := o.visible(key)
 		if !i.judgeable || o.unjudged[key] {
@@ -759,6 +766,8 @@ func (o *Oracle) Step(idx int, line, out string) {
 		r.secret = r.secret || i.ms
 		r.crown = r.crown || i.mj
 		switch f[0] {
+		case "reput":
+			// data and flags stay; the save materialises a pending relative expiry (touch above)
 		case "del":
 			delete(o.recs, key)
 		case "setabs":
